@@ -16,6 +16,7 @@ from .values import (
     TAG_NPFLOAT,
     TAG_PYFLOAT,
     TAG_PYINT,
+    DictObj,
     ListObj,
     Num,
     OutOfSubset,
@@ -35,6 +36,8 @@ ASSUMPTIONS = {
     "np.sqrt": "numpy.sqrt returns the non-negative real root as float64, NaN for negative input (errors ignored); TypeError for a Python int outside [-2^63, 2^64)",
     "np.absolute": "numpy.absolute is |x| and returns a numpy scalar",
     "math.isnan": "math.isnan is true exactly for NaN",
+    "weakref": "a weakref.WeakKeyDictionary / WeakValueDictionary behaves as a dict keyed by identity for objects that stay reachable",
+    "math.isfinite": "math.isfinite is false exactly for NaN and the infinities",
     "math.copysign": "math.copysign converts to double (OverflowError for a Python int beyond 2^1024) and returns |x| with the sign of y",
     "math.factorial": "math.factorial(n) = n! for integer n >= 0, ValueError for negative n",
     "py.pow": "int ** non-negative int is the exact integer power",
@@ -228,6 +231,28 @@ def install(I):
         I.raise_("TypeError", "must be real number", implicit=True)
 
     E["math.isinf"] = isinf
+
+    def isfinite(I, args, kw):
+        (v,) = args
+        if v is INF or v is NAN:
+            return False
+        if isinstance(v, Num):
+            return True  # reals: a number of the model is finite
+        if isinstance(v, (int, Fraction)):
+            return True
+        if isinstance(v, float):
+            return math.isfinite(v)
+        I.raise_("TypeError", "must be real number", implicit=True)
+
+    E["math.isfinite"] = isfinite
+
+    def weak_dict(I, args, kw):
+        if args or kw:
+            raise OutOfSubset("weakref dictionary from an initial mapping")
+        return DictObj()  # a mapping keyed by object identity; entries never vanish while the key is reachable
+
+    E["weakref.WeakKeyDictionary"] = weak_dict
+    E["weakref.WeakValueDictionary"] = weak_dict
 
     def copysign(I, args, kw):
         """math.copysign(x, y): both arguments are converted to C doubles first - a Python int beyond the double
